@@ -143,4 +143,37 @@ def execute(case):
     return Result(v, nontrivial=bool(cls), classes=classes)
 
 
-PARTS = [Part("schedules", case_strategy, execute, quick=1600, thorough=8000)]
+@st.composite
+def map_async_case(draw, tier="quick"):
+    """focused shape: 1-3 producers -> union -> map_async(parallelism 1-2) -> consumer; long
+    schedules of emits (awaited and not) and job completions in any order: many elements wait
+    for a work slot while others arrive"""
+    n_ent = draw(st.integers(1, 3))
+    nodes = [{"k": "entry", "u": [], "p": {}, "t": "E"} for _ in range(n_ent)]
+    src = n_ent - 1
+    if n_ent > 1:
+        nodes.append({"k": "union", "u": list(range(n_ent)), "p": {}, "t": "E"})
+        src = len(nodes) - 1
+    nodes.append({"k": "map_async", "u": [src], "p": {"f": "inc", "par": draw(st.integers(1, 2))},
+                  "t": "E"})
+    nodes.append({"k": "sink", "u": [len(nodes) - 1], "p": {}, "t": None})
+    spec = {"nodes": nodes, "fb": None}
+    emit = st.tuples(st.sampled_from(["emit", "pemit", "pemit"]), st.integers(0, n_ent - 1),
+                     st.integers(0, 5))
+    job = st.tuples(st.just("job"), st.just(0), st.integers(0, 3))
+    fin = st.tuples(st.just("fin"), st.just(0), st.integers(0, 2))
+    turn = st.tuples(st.just("turn"), st.integers(1, 3))
+    one = st.one_of(emit, emit, job, job, fin, turn).map(lambda a: [list(a)])
+    burst = st.lists(emit, min_size=3, max_size=5).map(lambda l: [list(a) for a in l])
+    # a completion, a few loop turns, then an arrival: everything within one drain
+    race = st.tuples(st.integers(0, 3), st.integers(1, 3), st.integers(0, n_ent - 1),
+                     st.integers(0, 5)).map(
+        lambda t: [["job", 0, t[0], "!"], ["turn", t[1]], ["emit", t[2], t[3]]])
+    steps = draw(st.lists(st.one_of(one, one, one, burst, race, race), min_size=4, max_size=20))
+    acts = [a for stp in steps for a in stp][:60]
+    return {"spec": spec, "cmodes": {str(len(nodes) - 1): draw(st.sampled_from(["sync", "fut"]))},
+            "actions": acts}
+
+
+PARTS = [Part("schedules", case_strategy, execute, quick=1600, thorough=8000),
+         Part("map_async-focus", map_async_case, execute, quick=800, thorough=6000)]
